@@ -11,19 +11,14 @@ inductive PTree where
   | node (doc : PyVal) (children : List PTree)
 deriving Inhabited
 
-mutual
 def toTree : Nat → PyVal → PTree
   | 0, d => .leaf d
   | fuel + 1, d =>
     if d.hasKey "policies" then
       match por (d.get "policies") (.list []) with
-      | .list cs => .node d (toTreeL fuel cs)
+      | .list cs => .node d (cs.map (toTree fuel))
       | _ => .node d []
     else .leaf d
-def toTreeL : Nat → List PyVal → List PTree
-  | _, [] => []
-  | fuel, c :: cs => toTree fuel c :: toTreeL fuel cs
-end
 
 def treeOf (doc : PyVal) : PTree := toTree (doc.size + 1) doc
 
